@@ -12,6 +12,15 @@ use proptest::test_runner::{Config, RngAlgorithm, TestRng, TestRunner};
 use serde_json::Value;
 use std::path::PathBuf;
 
+/// Case sizes of the quick tier by default (more executions per second, hence
+/// more coverage feedback); FV_FUZZ_TIER=thorough selects the larger specs
+pub fn fuzz_tier() -> Tier {
+    match std::env::var("FV_FUZZ_TIER").as_deref() {
+        Ok("thorough") => Tier::Thorough,
+        _ => Tier::Quick,
+    }
+}
+
 pub struct FuzzState<P: Prop> {
     strategy: proptest::strategy::BoxedStrategy<P::Case>,
     known: Known,
@@ -22,7 +31,25 @@ pub struct FuzzState<P: Prop> {
 
 /// Decodes libFuzzer bytes into a case of `P` (None: the generator rejected)
 pub fn decode<P: Prop>(strategy: &proptest::strategy::BoxedStrategy<P::Case>, data: &[u8]) -> Option<P::Case> {
-    let rng = TestRng::from_seed(RngAlgorithm::PassThrough, data);
+    // The pass-through RNG yields zeros once its bytes are used up, and
+    // rand's uniform integer sampling rejects 0 for every range that is not a
+    // power of two -- it would spin forever.  A fixed pseudo-random tail keeps
+    // decoding total and deterministic: the fuzzer's bytes decide the first
+    // choices, the tail completes the case.
+    static TAIL: std::sync::OnceLock<Vec<u8>> = std::sync::OnceLock::new();
+    let tail = TAIL.get_or_init(|| {
+        let mut x = 0x9e3779b97f4a7c15u64;
+        let mut v = Vec::with_capacity(1 << 20);
+        while v.len() < (1 << 20) {
+            x = splitmix(x);
+            v.extend_from_slice(&x.to_le_bytes());
+        }
+        v
+    });
+    let mut bytes = Vec::with_capacity(data.len() + tail.len());
+    bytes.extend_from_slice(data);
+    bytes.extend_from_slice(tail);
+    let rng = TestRng::from_seed(RngAlgorithm::PassThrough, &bytes);
     let cfg = Config {
         failure_persistence: None,
         max_local_rejects: 64,
@@ -37,7 +64,7 @@ impl<P: Prop> FuzzState<P> {
     pub fn new(out_dir: PathBuf) -> Self {
         install_quiet_panic_hook();
         FuzzState {
-            strategy: P::strategy(Tier::Thorough),
+            strategy: P::strategy(fuzz_tier()),
             known: Known::load(),
             ev: Evidence::default(),
             rejected: 0,
@@ -56,12 +83,41 @@ impl<P: Prop> FuzzState<P> {
             prop: P::ID,
             ev: &mut self.ev,
             known: &self.known,
-            tier: Tier::Thorough,
+            tier: fuzz_tier(),
             strict: false,
         };
         match run_check::<P>(&case, &mut cx) {
             Ok(()) => None,
             Err(f) => {
+                // no proptest value tree here, so only the property's own
+                // reduction passes are applied (same loop as the workers')
+                let (mut case, mut f) = (case, f);
+                let mut scratch = Evidence::default();
+                scratch.frozen = true;
+                let mut cx = Cx {
+                    prop: P::ID,
+                    ev: &mut scratch,
+                    known: &self.known,
+                    tier: fuzz_tier(),
+                    strict: false,
+                };
+                let mut budget = 400;
+                'outer: while budget > 0 {
+                    for cand in P::reduce(&case) {
+                        budget -= 1;
+                        if let Err(f2) = run_check::<P>(&cand, &mut cx) {
+                            if f2.sig == f.sig {
+                                case = cand;
+                                f = f2;
+                                continue 'outer;
+                            }
+                        }
+                        if budget == 0 {
+                            break;
+                        }
+                    }
+                    break;
+                }
                 let v = serde_json::to_value(&case).unwrap();
                 Some(write_replay(P::ID, &f.sig, &f.msg, &v))
             }
@@ -74,16 +130,18 @@ impl<P: Prop> FuzzState<P> {
             "executions_decoded": self.ev.evaluations,
             "inputs_rejected_by_generator": self.rejected,
             "distinct_nontrivial": self.ev.nontrivial.len(),
+            "nontrivial_fingerprints": self.ev.nontrivial,
             "classes": self.ev.counters,
             "known_finding_hits_excluded": self.ev.known_hits,
             "samples": self.ev.samples,
         });
-        let _ = std::fs::write(self.out_dir.join("fuzz_evidence.json"), serde_json::to_string_pretty(&v).unwrap());
+        let name = format!("fuzz_evidence.{}.json", std::process::id());
+        let _ = std::fs::write(self.out_dir.join(name), serde_json::to_string_pretty(&v).unwrap());
     }
 }
 
 /// `fv fuzz-decode <ID> <artifact>`: the case a crashing libFuzzer input decodes to
 pub fn decode_to_value<P: Prop>(data: &[u8]) -> Option<Value> {
-    let s = P::strategy(Tier::Thorough);
+    let s = P::strategy(fuzz_tier());
     decode::<P>(&s, data).map(|c| serde_json::to_value(&c).unwrap())
 }
